@@ -187,6 +187,7 @@ pub fn gen_config(rng: &mut Prng, pop: Pop) -> Config {
         hasher,
         init_cap,
         shards: None,
+        wlock_sp: false,
     }
 }
 
@@ -198,6 +199,11 @@ impl GenCtx {
         if let Some(cap) = cfg.cap {
             if self.rng.chance(1, 20) {
                 return (cap as u32).saturating_add(1 + self.rng.below(3) as u32);
+            }
+            // wide caches: an occasional weight of the order of the capacity itself (one update
+            // then creates an excess that a single eviction batch cannot give back)
+            if cap >= 100 && self.rng.chance(1, 25) {
+                return (cap / 2 + self.rng.below(cap / 2 + 1)) as u32;
             }
         }
         *self.rng.pick(&[0u32, 1, 1, 1, 2, 2, 3, 4])
